@@ -86,6 +86,13 @@ def _gen_case(rng, malformed):
                 else:
                     r = rng.randint(lo, hi) if lo <= hi else lo
             ops.append(["pull", k, r])
+            if consumers[k] in ("next", "linear") and not malformed and rng.random() < 0.5 and pubs[0] <= r <= pubs[-1]:
+                # a second (third) request strictly inside the same publication interval
+                nxt = [p for p in pubs if p > r]
+                if nxt and nxt[0] - r >= 2:
+                    r2 = rng.randint(r, nxt[0] - 1)
+                    ops.append(["pull", k, r2])
+                    r = r2
             if consumers[k] == "shared" and rng.random() < 0.5:
                 # the siblings behind the shared adapter ask for the very same time one after the other
                 for k2 in range(nc):
@@ -116,6 +123,10 @@ CORPUS = [
     # a delayed push-based adapter is the slowest consumer
     {"consumers": ["dlinear", "direct"], "delay": 3,
      "ops": [x for d in range(0, 9) for x in (["push", d], ["pull", 1, d])] + [["pull", 0, 8]]},
+    # a consumer three times finer than the producer behind NextTime / LinearTime: several requests inside one interval
+    {"consumers": ["next", "linear"],
+     "ops": [["push", 0], ["push", 3], ["pull", 0, 1], ["pull", 1, 1], ["pull", 0, 2], ["pull", 1, 2], ["pull", 0, 3], ["push", 6],
+             ["pull", 0, 4], ["pull", 0, 5], ["pull", 1, 5], ["pull", 0, 6]]},
     # two consumers with different paces behind one shared pass-through adapter
     {"consumers": ["shared", "shared"],
      "ops": [["push", d] for d in range(0, 7)] + [["pull", 0, 3], ["pull", 1, 1], ["pull", 1, 2], ["pull", 0, 6], ["pull", 1, 3], ["pull", 1, 6]]},
@@ -325,11 +336,42 @@ def _user_level_bound(case, obs):
     return None
 
 
+def _user_level_adapters(case, obs):
+    """Consumers behind push-based adapters (NextTime / LinearTime keep their own history): a request inside the
+    published range, not before the consumer's previous request, must be served — nothing such a consumer may still
+    request is discarded by the adapter either; NextTime must deliver the first publication at or after the request."""
+    if "user" not in obs or len(obs["user"]) != len(case["ops"]):
+        return None
+    pubs = []
+    last = {}
+    dead = set()
+    for op, res in zip(case["ops"], obs["user"]):
+        if op[0] == "push":
+            if pubs and op[1] <= pubs[-1]:
+                return None
+            if res != "ok":
+                return None
+            pubs.append(op[1])
+            continue
+        k, t = op[1], op[2]
+        kind = case["consumers"][k]
+        if kind not in ("next", "linear") or k in dead:
+            continue
+        if not pubs or t < pubs[0] or t > pubs[-1] or (k in last and t < last[k]):
+            dead.add(k)  # outside the domain from here on (the adapter's state after a refused request is not specified)
+            continue
+        last[k] = t
+        if res != "ok":
+            return (f"consumer {k} behind {kind}: request {t} inside the published range [{pubs[0]},{pubs[-1]}], not before "
+                    f"its previous request, failed with {res}")
+    return None
+
+
 def monitor(case, obs):
     fails, _, _ = _sim(obs)
     if fails:
         return fails[0]
-    return _user_level_bound(case, obs)
+    return _user_level_bound(case, obs) or _user_level_adapters(case, obs)
 
 
 def nontrivial(case, obs):
